@@ -56,6 +56,8 @@ def file_plans(ctx, rng):
     plans = [(3, "secondary", [hist([("c1", 12, ""), ("c2", 104, "host-2"), ("c3", dc.NOA, "a b: c")]), hist([("c4", 200, "x")]), [],
                                hist([("c5", dc.EXT, ""), ("c6", 77, "")])])]
     plans.append((0, "nice", mc[:6 if ctx.quick else 30]))
+    # home LAN shorter than /24: x.y.0.255 and x.y.1.0 are ordinary host addresses (offsets 255 / 256)
+    plans.append((5, "primary", [hist([("c1", 255, ""), ("c2", 256, "n"), ("c3", dc.NOA, "")])]))
     if not ctx.quick:
         plans.append((2, "primary", [hist([("c1", 3, "n"), ("c2", 12, "")]), hist([("c5", dc.NOA, "")])]))
         plans.append((4, "nice", [hist([("c1", 100, "n1"), ("c2", 101, "n2"), ("c3", 17, "n3"), ("c6", 1, "")])]))
